@@ -109,6 +109,7 @@ Section Scopes.
   Proof.
     apply (expr_mut (fun e => wf e -> raw e) (fun l => wf_x l -> raw_x l) (fun l => wf_o l -> raw_o l) (fun l => wf_a l -> raw_a l));
       cbn [wf wf_x wf_o wf_a raw raw_x raw_o raw_a]; try tauto.
+    intros k v IHv r IHr [_ [[E|Hv] Hr]]; [subst v; cbn; tauto|tauto].
   Qed.
 
   (* resolve, print with the scopes' names, parse, resolve: the same expression *)
